@@ -203,6 +203,14 @@ Proof.
   - destruct (get q K_RESP) as [x|] eqn:E2; [|discriminate]. intros H. inversion H; subst. auto.
 Qed.
 
+(* the parameters that go into the signed octets (either direction) *)
+Definition keys_signed : list string := [K_REQ; K_RESP; K_RS; K_ALG].
+
+Lemma vview_same4 q q' : same_on keys_signed q q' -> vview q = vview q'.
+Proof.
+  intros H. unfold vview. rewrite (H K_REQ), (H K_RESP) by (cbn; auto 10). reflexivity.
+Qed.
+
 Definition rsl (r : string) : list (string * string) := if is_empty r then [] else [(K_RS, r)].
 Definition rsopt (r : string) : option string := if is_empty r then None else Some r.
 
@@ -301,6 +309,48 @@ Section Proofs.
     rewrite (Hs K_REQ) by (cbn; auto 10). rewrite (Hs K_RESP) by (cbn; auto 10). exact Hv.
   Qed.
 
+  (* ---------------------------------------------------------------- why key_verify must accept ONE octet string
+     (necessity of the uniqueness half of Spec.ideal; nothing assumed about sign/verify here): parameters as a
+     verifier receives them, with the Signature parameter sp *)
+  Definition presented (t v : string) (r : option string) (a sp : string) : query :=
+    ((t, v) :: match r with Some x => [(K_RS, x)] | None => [] end ++ [(K_ALG, a); (K_SIG, sp)])%list.
+
+  Lemma presented_gets t v r a sp :
+    dirtyp t ->
+    let h := presented t v r a sp in
+    get h K_ALG = Some a /\ vview h = Some (t, v) /\ get h K_SIG = Some sp /\ get h K_RS = r.
+  Proof. intros [-> | ->]; destruct r; cbn; repeat split; reflexivity. Qed.
+
+  Lemma presented_verifies own c t v r a d s :
+    dirtyp t -> digest_of a = Some d ->
+    vrs own (presented t v r a (encode s)) (Some c)
+    = (if verify c d (octets_of t v r a) s then VTrue else VFalse).
+  Proof.
+    intros Ht Hd. destruct (presented_gets t v r a (encode s) Ht) as [G1 [G2 [G3 G4]]].
+    rewrite vrs_char, vrsg_char, G1, Hd, G2, G3, G4, b64_decode_str_encode, String.eqb_refl. reflexivity.
+  Qed.
+
+  (* a key_verify that accepts a second octet string for some (certificate, digest, octets) - e.g. the value with
+     its leading zero octets dropped, or padded, or s + n - makes the Signature parameter malleable: two URLs that
+     differ in nothing but the Signature parameter both verify *)
+  Lemma malleable_verify_breaks own c t v r a d s s' :
+    dirtyp t -> digest_of a = Some d -> s <> s' ->
+    verify c d (octets_of t v r a) s = true -> verify c d (octets_of t v r a) s' = true ->
+    exists q q', same_on keys_signed q q' /\ get q K_SIG <> get q' K_SIG
+      /\ vrs own q (Some c) = VTrue /\ vrs own q' (Some c) = VTrue.
+  Proof.
+    intros Ht Hd Hne H1 H2. exists (presented t v r a (encode s)), (presented t v r a (encode s')).
+    split; [|split; [|split]].
+    - intros k Hk. unfold keys_signed in Hk. cbn [In] in Hk.
+      destruct Ht as [-> | ->]; destruct r;
+        repeat (destruct Hk as [<-|Hk]; [reflexivity|]); contradiction.
+    - destruct (presented_gets t v r a (encode s) Ht) as [_ [_ [G _]]].
+      destruct (presented_gets t v r a (encode s') Ht) as [_ [_ [G' _]]].
+      rewrite G, G'. intros E. injection E as E. apply encode_injective in E. contradiction.
+    - rewrite (presented_verifies _ _ _ _ _ _ _ _ Ht Hd), H1. reflexivity.
+    - rewrite (presented_verifies _ _ _ _ _ _ _ _ Ht Hd), H2. reflexivity.
+  Qed.
+
   Hypothesis Hideal : ideal cert_of sign verify.
 
   (* the honest signature verifies under c exactly when c is the signer's certificate *)
@@ -348,6 +398,33 @@ Section Proofs.
     intros _. apply (verify_iff _ _ _ Hideal) in E as [k [Hc Hs]].
     apply String.eqb_eq in Ecan.
     exists a, d, t, v, sp, k. subst. repeat split; try reflexivity; assumption.
+  Qed.
+
+  (* ---------------------------------------------------------------- the Signature parameter is unique
+     (no guard): two parameter sets that agree on message value, RelayState and SigAlg and both verify under the
+     same certificate carry the same Signature parameter.  With c15_verify: next to the signed URL's own Signature
+     parameter NO other value verifies - not another base64 text, not another octet string for the same integer
+     (leading zero octets dropped or added, s + n), nothing. *)
+  Lemma verify_unique c d m s s' : verify c d m s = true -> verify c d m s' = true -> s = s'.
+  Proof.
+    intros H1 H2.
+    apply (verify_iff _ _ _ Hideal) in H1 as [k [Hc Hs]]. apply (verify_iff _ _ _ Hideal) in H2 as [k' [Hc' Hs']].
+    rewrite Hc in Hc'. apply (cert_inj _ _ _ Hideal) in Hc'. subst. reflexivity.
+  Qed.
+
+  Lemma signature_unique own own' q q' c :
+    same_on keys_signed q q' ->
+    vrs own q (Some c) = VTrue -> vrs own' q' (Some c) = VTrue -> get q K_SIG = get q' K_SIG.
+  Proof.
+    intros Hs H1 H2.
+    destruct (accept_sound own q c H1) as [a [d [t [v [sp [k [Ea [Ed [Evw [Es [Ec Esp]]]]]]]]]]].
+    destruct (accept_sound own' q' c H2) as [a' [d' [t' [v' [sp' [k' [Ea' [Ed' [Evw' [Es' [Ec' Esp']]]]]]]]]]].
+    rewrite <- (Hs K_ALG) in Ea' by (cbn; auto 10). rewrite Ea in Ea'. injection Ea' as Ha. subst a'.
+    rewrite Ed in Ed'. injection Ed' as Hd. subst d'.
+    rewrite <- (vview_same4 _ _ Hs), Evw in Evw'. injection Evw' as Ht Hv. subst t' v'.
+    rewrite <- (Hs K_RS) in Esp' by (cbn; auto 10).
+    rewrite Ec in Ec'. apply (cert_inj _ _ _ Hideal) in Ec'. subst k'.
+    rewrite Es, Es', Esp, Esp'. reflexivity.
   Qed.
 
   (* the adversary model for the tamper clause (unforgeability, one signature known): the Signature parameter
